@@ -18,14 +18,18 @@ from checks.c13_common import Instrumentation, explore, result_dict, tuple_deep,
 PROPERTY = "C13"
 LEVEL = "exploration"
 MAXTASKS = 4
-RULE = ("breadth-first enumeration of ALL histories of API calls up to the stated depth over the stated call menus, each history "
-        "re-executed from scratch on a fresh real LiteX object, invariants evaluated after every call, real do_finalize + decoder "
-        "evaluation on every new state; part (b) is the full product (origin x size x every word address).  evaluations = "
-        "histories judged (one new API call each; replayed prefixes not counted) + decoder sweeps of part (b) counted per "
-        "(origin,size); distinct_nontrivial = distinct canonical object states reached by a successful call (sorted region "
-        "tuples + ordered IO regions + slave flags / ordered loc tables / ordered available+matched entry lists, names "
-        "abstracted) plus distinct swept (bus, origin, size) decoders, counted as the UNION over all configurations via 64-bit "
-        "digests (per-configuration numbers overlap because different first calls reach the same state)")
+RULE = ("breadth-first enumeration of ALL histories of API calls up to the depth in the configuration name over the stated call "
+        "menus, each history re-executed from scratch on a fresh real LiteX object, invariants evaluated after every call, real "
+        "do_finalize + decoder evaluation (FHDL Evaluator) on every new state; histories are de-duplicated by canonical state; the "
+        "space is split by first call, and a state that a verified permutation of its history (really executed, same canonical "
+        "state, no violation on the way) shows to be reachable from an earlier configuration's first call is extended only there "
+        "(validated: union of states == unsplit BFS for core@3, mid@3, full@3); of the violating histories only those are reported "
+        "from which no earlier call can be dropped; part (b) is the full product (origin x size x every word address).  "
+        "evaluations = histories judged (one new API call each; replayed prefixes not counted) + decoders swept in part (b); "
+        "distinct_nontrivial = distinct canonical object states reached by a successful call (sorted region tuples + ordered IO "
+        "regions + slave flags / ordered loc tables / ordered available+matched entry lists, names abstracted) plus distinct swept "
+        "(bus, origin, size) decoders, counted as the UNION over all configurations via 64-bit digests (per-configuration numbers "
+        "overlap because different first calls reach the same state)")
 ASSUMPTIONS = [
     "bounded: histories up to the depth given in each configuration name, call menus as listed in checks/c13_bus.py MENUS, "
     "c13_locs.py, c13_platform.py; bus menus: 7 origins x 7 sizes x cached/uncached, 4 IO regions, 32- and 64-bit spaces",
